@@ -15,7 +15,7 @@ func genMsg(t *rapid.T) Msg {
 
 func genAttempt(t *rapid.T) Attempt {
 	a := Attempt{}
-	a.Conn = rapid.SampledFrom([]string{"ok", "ok", "ok", "ok", "ok", "ok", "err", "park"}).Draw(t, "conn")
+	a.Conn = rapid.SampledFrom([]string{"ok", "ok", "ok", "ok", "ok", "ok", "err", "park", "ok", "deaf"}).Draw(t, "conn")
 	if a.Conn != "park" {
 		a.ConnDelay = rapid.SampledFrom([]int{0, 0, 0, 1, 2, 4}).Draw(t, "conn-delay")
 	}
@@ -70,9 +70,20 @@ func genScenario(t *rapid.T, favourDefault bool) *Scenario {
 	sc.NilCallbacks = rapid.IntRange(0, 11).Draw(t, "nil-callbacks") == 11
 	minAttempts := rapid.SampledFrom([]int{0, 0, 1, 2, 3, 4}).Draw(t, "min-attempts")
 	sc.Attempts = rapid.SliceOfN(rapid.Custom(genAttempt), minAttempts, 6).Draw(t, "attempts")
+	mode := rapid.SampledFrom([]string{"phase", "phase", "phase", "phase", "phase", "phase", "uniform", "uniform", "late", "before-subscribe",
+		"deaf-connect", "deaf-connect", "deaf-after-failed-connect", "deaf-after-failed-connect"}).Draw(t, "aim")
+	if mode == "deaf-connect" || mode == "deaf-after-failed-connect" {
+		genDeafAim(t, sc, mode)
+		return sc
+	}
 	n := len(sc.Attempts)
-	mode := rapid.SampledFrom([]string{"phase", "phase", "phase", "phase", "phase", "phase", "uniform", "uniform", "late", "before-subscribe"}).Draw(t, "aim")
 	if mode == "before-subscribe" {
+		// A transport that does not watch its context under a client closed
+		// before Subscribe: the client must not start an attempt at all
+		// (D21, repaired in /repo), so deaf attempts are generated here too.
+		if rapid.IntRange(0, 2).Draw(t, "deaf-first") == 0 && len(sc.Attempts) > 0 && !sc.Plain {
+			sc.Attempts[0].Conn = "deaf"
+		}
 		sc.SubAt = rapid.IntRange(1, 3).Draw(t, "sub-at")
 		sc.StopAt = rapid.IntRange(0, sc.SubAt-1).Draw(t, "stop-at")
 		sc.Target = mode
@@ -131,6 +142,65 @@ func genScenario(t *rapid.T, favourDefault bool) *Scenario {
 		}
 	}
 	return sc
+}
+
+// genDeafAim rewrites the script drawn so far so that the stop action lands
+// where only the context can tell the transport about it and the transport
+// does not watch its context: inside the constructor of a deaf transport, or
+// inside the backoff that precedes a retry over a deaf transport after attempts
+// that never produced an Impl (the underlying client then has nothing to
+// close). Messages are scripted after the connect.
+func genDeafAim(t *rapid.T, sc *Scenario, mode string) {
+	deaf := genAttempt(t)
+	deaf.Conn, deaf.Sub = "deaf", "ok"
+	deaf.ConnDelay = rapid.IntRange(1, 4).Draw(t, "deaf-conn-delay")
+	for len(deaf.Msgs) < 2 {
+		deaf.Msgs = append(deaf.Msgs, Msg{Delay: len(deaf.Msgs), N: 1})
+	}
+	// attempts before the deaf one
+	prefix := sc.Attempts
+	if len(prefix) > 3 {
+		prefix = prefix[:3]
+	}
+	kept := prefix[:0:0]
+	for _, a := range prefix {
+		if a.End == "block" {
+			a.End = "err" // every earlier attempt ends by itself
+		}
+		if mode == "deaf-after-failed-connect" {
+			// no attempt before the deaf one ever yields an Impl
+			switch a.Conn {
+			case "ok", "deaf":
+				a.Conn = "err"
+			}
+		}
+		kept = append(kept, a)
+	}
+	if mode == "deaf-after-failed-connect" && len(kept) == 0 {
+		kept = append(kept, Attempt{Conn: "err", Sub: "ok", End: "err"})
+	}
+	sc.Attempts = append(kept, deaf)
+	j := len(kept) // index of the deaf attempt
+	p := sc.predict(j + 1)
+	frac := rapid.IntRange(0, 7).Draw(t, "aim-frac")
+	var lo, hi time.Duration
+	if len(p) <= j {
+		// an earlier deaf attempt blocks for good (cannot happen: ends were rewritten); aim late
+		sc.StopAt, sc.Target = int(p[len(p)-1].end/Unit)+1, mode+"-missing"
+		return
+	}
+	if mode == "deaf-connect" {
+		lo, hi = p[j].start, p[j].conn
+	} else {
+		lo, hi = p[j-1].end, p[j-1].next
+	}
+	sc.Target = mode
+	ulo, uhi, ok := unitsWithin(lo, hi)
+	if !ok {
+		ulo, uhi, _ = unitsWithin(p[j].start, p[j].start+Unit)
+		sc.Target = mode + "-missing"
+	}
+	sc.StopAt = ulo + (uhi-ulo)*frac/7
 }
 
 // ---------------------------------------------------------------------------
